@@ -112,9 +112,15 @@ func (t *Input) CoerceIn(v interface{}) (interface{}, error) {
 			}
 		}
 		for k, f := range t.fields.dict {
-			ov := tv[k]
+			ov, has := tv[k]
+			_, nonNull := f.Type.(*NonNull)
+			if ov == nil && has && !nonNull {
+				// An explicit null is a value of its own, the default is
+				// for a field that is left out.
+				continue
+			}
 			if ov == nil {
-				if f.Default != nil { // if not set then add the default value if not nil
+				if f.Default != nil && !has { // if not set then add the default value if not nil
 					if rt != nil {
 						if err := t.reflectSetKey(rv, k, f.Default); err != nil {
 							return nil, inErr(err, k)
@@ -131,7 +137,7 @@ func (t *Input) CoerceIn(v interface{}) (interface{}, error) {
 						}
 						tv[k] = dv
 					}
-				} else if _, ok := f.Type.(*NonNull); ok {
+				} else if nonNull {
 					return nil, fmt.Errorf("%s is required but missing", k)
 				}
 			} else if co, _ := f.Type.(InCoercer); co != nil {
